@@ -9,6 +9,7 @@
 //!         each in their own threads, concurrently with the parent running nops more, with verif_hooks::yield_point
 //!         between ops; reported like `h`: one sequence per handle (parent first), fresh answers computed afterwards
 //!         sequentially.
+//! case  x <archive> <concrete op> ...   (experiments on a damaged file; prints X <op>~..~.. ...; no model side)
 //! output  A <structure> | <op>~<cls>:<hash>~<cls>:<hash> ... / ...
 //!         cls O/E/P (Ok / Err value / panic), hash = FNV-1a/64 of the canonical rendering of the answer;
 //!         first pair = the history-carrying handle, second pair = the fresh handle.
@@ -577,6 +578,23 @@ fn run(t: &[&str]) -> String {
                 })
                 .collect();
             format!("A {} | {}", abs.text, seqs.join(" / "))
+        }
+        // experiments on a given (possibly damaged) archive file: concrete ops only, no structure, not modelled
+        ["x", path, rest @ ..] => {
+            let abs = Abs { names: vec![], batches: vec![], refs: vec![], text: String::new() };
+            let mut memo = HashMap::new();
+            let mut d = match Decompressor::open(path, cfg()) {
+                Ok(d) => d,
+                Err(e) => return format!("OPEN-ERR {:#}", e),
+            };
+            let mut out = Vec::new();
+            for tok in rest {
+                let op = resolve(&abs, tok);
+                let same = exec(&mut d, &op);
+                let fresh = fresh_answer(path, &op, &mut memo);
+                out.push(format!("{}~{}~{}", op_text(&op), same, fresh));
+            }
+            format!("X {}", out.join(" "))
         }
         _ => "HARNESS-ERROR bad case".into(),
     }
